@@ -458,6 +458,16 @@ def record(rng, nreqs=4, max_steps=60, max_events=MAX_EVENTS):
             names = sorted(groups)
             g = rng.choices(names, [WEIGHTS[x] for x in names])[0]
             act = rng.choice(groups[g])
+            # while a reconnection attempt is in flight, often let a status event bring the host up first (the attempt is
+            # then cancelled while connecting - the schedules in which a stale reconnector could still act)
+            parked = [d[2] for d in p["exec"] if d[0] == "ReconConn" and not d[4]]
+            if parked and rng.random() < 0.5:
+                pref = [a for _, a in ops if
+                        (a["name"] == "StatusEvent" and a["x"] == "UP" and a["h"] in parked) or
+                        (a["name"] in ("Fire", "Exec") and a["t"]["k"] == "OnUp" and a["t"]["h"] in parked) or
+                        (a["name"] == "Exec" and a["t"]["k"] == "AddPool" and a["t"]["h"] in parked)]
+                if pref:
+                    act = rng.choice(pref)
             try:
                 p = h.do(act)
             except Exception as ex:           # noqa: BLE001 - the code under test (or a mutant) left the envelope
